@@ -432,6 +432,7 @@ def r_unescape(ctx):
                   "code point above U+10FFFF, an over-long hex number (abstract evaluation of the source on a table of literals)", floor=20)
     f = ctx.facts
     fi = f.fn(B, "try_unescape_text")
+    mod_fns = {x.name: x.node for x in f.fns(B) if x.impl_self is None and not x.in_test and x.name != "try_unescape_text"}
 
     def text_of(v):
         if isinstance(v, tuple) and v[:1] == ("str",):
@@ -461,6 +462,7 @@ def r_unescape(ctx):
         return NotImplemented
     for lit, want in UNESCAPE_CASES:
         it = Interp(env={"text": ("str", lit)}, on_call=on_call, max_steps=400000)
+        it.resolve_fn = lambda nm: mod_fns.get(nm) if "::" not in nm else None
         try:
             try:
                 res = it.block(fi.node["body"])
